@@ -9,7 +9,7 @@ use std::collections::{BTreeMap, BTreeSet};
 
 pub fn monitor() -> Monitor {
   Monitor { id: "C14",
-    rule: "(cell, delta) pairs with delta >= 1 and depth+delta <= 29 (plus, per run, 16 cells with delta drawn from 7..19 so that the small / medium / large z-order implementations and their top bits are all exercised: boxed vs append helpers, external edge (all forms) against the neighbours of the deep border cells): every cell of depths <= 2 with delta <= 4 (quick) / depths <= 4 with delta <= 6 (thorough); deeper depths: the class sample (corners / borders / second ring / centre of each of the 12 base cells) plus uniform cells, delta in 1..=6 and the largest delta allowed. Expected internal walk is built from the reference bit-interleave; the expected external set from the crate's neighbours (judged geometrically by C04) of the deep border cells, with a geometric spot check. Non-trivial = cell on a base-cell border/corner (the external edge crosses a seam) or depth+delta == 29.",
+    rule: "(cell, delta) pairs with delta >= 1 and depth+delta <= 29 (plus, per run, 16 cells with delta drawn from 7..22 (..24 thorough) so that the small / medium / large z-order implementations and their top bits are all exercised: boxed vs append helpers, external edge (all forms) against the neighbours of the deep border cells): every cell of depths <= 2 with delta <= 4 (quick) / depths <= 4 with delta <= 6 (thorough); deeper depths: the class sample (corners / borders / second ring / centre of each of the 12 base cells) plus uniform cells, delta in 1..=6 and the largest delta allowed. Expected internal walk is built from the reference bit-interleave; the expected external set from the crate's neighbours (judged geometrically by C04) of the deep border cells, with a geometric spot check. Non-trivial = cell on a base-cell border/corner (the external edge crosses a seam) or depth+delta == 29.",
     assumptions: &["Layer::neighbours is geometrically correct (property C04, judged in its own run) — used to build the expected external set", "reference bit-interleave"],
     run, replay }
 }
@@ -42,9 +42,10 @@ fn run(ctx: &mut Ctx, extra: &mut BTreeMap<String, String>) {
     if k == 0 { wrappers(c); }
     // larger deltas, one list entry per shard: the z-order implementation is chosen by delta (<= 8 small, 9..16 medium, >= 17 large) and the
     // top bits of each class are where a truncated mask shows (delta 15/16 for the medium one). Debug builds: delta <= 13 (speed).
-    let list: &[u8] = if c.pass == "debug" { &[7, 8, 9, 10, 11, 12, 13, 9, 8, 10, 11, 12, 13, 7, 9, 10] } else { &[16, 15, 17, 9, 12, 18, 14, 13, 16, 15, 10, 11, 17, 8, 16, 19] };
+    let list: &[u8] = if c.pass == "debug" { &[7, 8, 9, 10, 11, 12, 13, 9, 8, 10, 11, 12, 13, 7, 9, 10] } else { &[16, 15, 17, 9, 12, 18, 14, 21, 16, 15, 10, 20, 17, 22, 13, 19] };
+    // (delta 20..22: 4.2 to 16.8 million border cells, results of 32 to 134 MB: size-gated code paths; 23 and 24 in the thorough tier)
     let n_big = if c.thorough && c.pass != "debug" { 4 } else { 1 };
-    for q in 0..n_big { let dd = list[(k + 5 * q) % list.len()]; let depth = rng.below(10) as u8; let cs = sample_cells(&mut rng, depth, 8); let h = cs[rng.below(cs.len() as u64) as usize]; judge_big(c, nested::get_or_create(depth), depth, h, dd); }
+    for q in 0..n_big { let dd = if c.thorough && c.pass == "release" && q == 3 && (k == 2 || k == 9) { 23 + (k == 9) as u8 } else { list[(k + 5 * q) % list.len()] }; let depth = rng.below(10) as u8; let cs = sample_cells(&mut rng, depth, 8); let h = cs[rng.below(cs.len() as u64) as usize]; judge_big(c, nested::get_or_create(depth), depth, h, dd); }
   });
 }
 
